@@ -10,8 +10,10 @@ for d in out/*/; do
   res="$wt/out/$k/confirm.txt"; : > "$res"
   if ! git apply "out/$k/patch.diff" 2>>"$res"; then echo "apply=FAIL" >> "$res"; continue; fi
   echo "apply=ok" >> "$res"
-  if [ "$prop" = "C19" ]; then
+  if [ "$prop" = "C19" ] || [ "$prop" = "C18" ]; then
     t=$(cargo test --offline -p rink-sandbox --lib 2>&1 | grep -E "^test result|FAILED|error(\[|:)" | sort | uniq -c | tr '\n' ';')
+  elif [ "$prop" = "C20" ]; then
+    t=$(cargo test --offline -p rink 2>&1 | grep -E "^test result|FAILED|error(\[|:)" | sort | uniq -c | tr '\n' ';')
   else
     t=$(cargo test --offline -p rink-core --all-features 2>&1 | grep -E "^test result|FAILED|error(\[|:)" | sort | uniq -c | tr '\n' ';')
   fi
